@@ -35,7 +35,9 @@ CLAIMED = {
               "Lean 4 proof (model = line grammar + tree grammar, unbounded) + regenerated regexes + exhaustive differential correspondence", "§0.2, §7 C03"),
     "C04": _c("PROVED: C04_substitute_eq_spec (model of substitute/_split with the Python index arithmetic and the generated _name_match = the "
               "documented replacement function, every mapping, environment and string) with corollaries; exhaustive/random correspondence of "
-              "model, spec and real substitute/isname.",
+              "model, spec and real substitute/isname. The Python SOURCE of substitute/_split/isname is translated to Lean on every run (pytrans, "
+              "DESIGN §13) and PROVED equal to the model (C04_code_*_eq), hence to the documented function (C04_code_substitute_eq_spec); the "
+              "real functions also run against the generated code.",
               "trusted: Lean kernel; extract.py regex translation; Lean regex semantics vs CPython sre on the subset; List.take/drop/findIdx standing for Python slicing/find; os.getenv = os.environ lookup.",
               "Lean 4 proof (model = spec) + translator-regenerated regex + differential correspondence", "§0.2, §7 C04"),
     "C05": _c("PROVED: the define step (C05_define_ok_iff, C05_define_eq_spec), whole texts (C05_text_eq_spec: parse = the specification fold incl. "
@@ -64,8 +66,10 @@ CLAIMED = {
               "types — existing-directory/-path/-file/-dirpath, locale behind MemoizedConversion, timedelta's constructor — over a Host parameter "
               "(os.path.dirname modelled exactly, MemoizedConversion transparent for every call sequence, failures not cached); C09_total_all: totality "
               "of the complete 26-name table for every host). Exhaustive/probe correspondence for every stock datatype; the host-dependent ones on a "
-              "scratch tree / HOME / cwd / probed locales, real vs contract-from-probes vs model on the probed host table.",
-              "trusted: Lean kernel; extract.py; regex semantics; pyInt/lower/strip models; glibc inet_pton6 re-implementation (compared with socket.inet_pton on every probe); "
+              "scratch tree / HOME / cwd / probed locales, real vs contract-from-probes vs model on the probed host table. "
+              "The Python SOURCE of 17 of these conversions is translated to Lean on every run (pytrans, DESIGN §13) and PROVED equal to the model for "
+              "all arguments (37 C09_code_* theorems: code = model, code = contract); the real conversions also run against the generated code.",
+              "trusted: Lean kernel; extract.py and pytrans.py (the translators); regex semantics; pyInt/lower/strip models; glibc inet_pton6 re-implementation (compared with socket.inet_pton on every probe); "
               "host parameters: os.path.isdir/isfile/exists/expanduser, setlocale acceptance, datetime.timedelta's numeric verdict (probed on every run).",
               "Lean 4 proof (model = contract per datatype) + regenerated patterns/tables + exhaustive correspondence", "§0.2, §7 C09"),
     "C10": _c("Model ZCV/Model/Elab.lean of schema.py + info.py (schema loading from the XML element tree, components, base schemas). PROVED: "
